@@ -78,7 +78,7 @@ def writeBitsLSB8 (b : Buffer) (bits : Nat) (n : Nat) : Out Buffer :=
 where
   /-- `b.wrote += n` in the pinned source (leaves 8 when the byte is exactly filled); the repaired
   source has `(b.wrote + n) % 8`.  Which of the two the code does is read by the correspondence run. -/
-  WROTE_AFTER_FILL (w n : Nat) : Nat := w + n
+  WROTE_AFTER_FILL (w n : Nat) : Nat := (w + n) % 8
 
 /-- Go: `writeByte(bits uint8)` -/
 def writeByte (b : Buffer) (bits : Nat) : Out Buffer :=
